@@ -335,6 +335,7 @@ func c17(r *core.Run) {
 		}
 	}
 	r.Floor("C17.P1", "bit-vector accesses indexed by getCidSort", nUse, 3)
+	c17Complete(r)
 
 	// H1 DelFile exhaustiveness
 	del := w.Func(ciPkg, "(*ChunkInfo).DelFile")
